@@ -103,7 +103,16 @@ def c18_special(pid, prop, tier, seed, b):
         else:
             args += [p.encode('latin-1') for p in inv['pats']]
         try:
-            p = subprocess.run(args, input=stdin_data, stdout=subprocess.PIPE, stderr=subprocess.PIPE, timeout=60)
+            if inv['stdin'] and inv['id'] % 3 == 0:
+                # `seqinfo < list.txt`: stdin is a redirected regular file, not a pipe
+                import tempfile
+                with tempfile.TemporaryFile(dir='/var/tmp') as fh:
+                    fh.write(stdin_data)
+                    fh.flush()
+                    fh.seek(0)
+                    p = subprocess.run(args, stdin=fh, stdout=subprocess.PIPE, stderr=subprocess.PIPE, timeout=60)
+            else:
+                p = subprocess.run(args, input=stdin_data, stdout=subprocess.PIPE, stderr=subprocess.PIPE, timeout=60)
         except subprocess.TimeoutExpired:
             return None, 'TIMEOUT'
         return p.returncode, p.stdout
@@ -1071,6 +1080,9 @@ def c16_special(pid, prop, tier, seed, b):
     import concurrent.futures
     with concurrent.futures.ThreadPoolExecutor(max_workers=8) as ex:
         outs = list(ex.map(one, runs))
+    import glob
+    for d in glob.glob('/var/tmp/racedrv*'):          # scratch directories of runs that were killed
+        shutil.rmtree(d, ignore_errors=True)
     cases, failures, impl_lines = [], [], []
     for r, (rc, so, se) in zip(runs, outs):
         c = dict(line='racedrv %d %d %d' % r, text='fresh process: %d goroutines x %d random API calls from a cold start (seed %d)' % (r[1], r[2], r[0]),
